@@ -122,8 +122,22 @@ def dispatch(repo, res):
     tree = m.tree
     bn = npf = None
     for n in ast.walk(tree):
-        if isinstance(n, ast.Assign) and len(n.targets) == 1 and isinstance(n.targets[0], ast.Name) and isinstance(n.value, ast.Dict):
-            keys = sorted(k.value for k in n.value.keys if isinstance(k, ast.Constant))
+        if isinstance(n, ast.Assign) and len(n.targets) == 1 and isinstance(n.targets[0], ast.Name) \
+                and isinstance(n.value, (ast.Dict, ast.DictComp)):
+            if isinstance(n.value, ast.Dict):
+                keys = sorted(k.value for k in n.value.keys if isinstance(k, ast.Constant))
+            else:
+                # {name: ... for name in <literal tuple, possibly through a module-level name>}
+                g_ = n.value.generators[0]
+                it = g_.iter
+                if isinstance(it, ast.Name):
+                    lit = [a_.value for a_ in ast.walk(tree) if isinstance(a_, ast.Assign) and len(a_.targets) == 1
+                           and isinstance(a_.targets[0], ast.Name) and a_.targets[0].id == it.id]
+                    it = lit[0] if len(lit) == 1 else it
+                if not (len(n.value.generators) == 1 and not g_.ifs and isinstance(it, (ast.Tuple, ast.List))
+                        and isinstance(n.value.key, ast.Name) and isinstance(g_.target, ast.Name) and n.value.key.id == g_.target.id):
+                    continue
+                keys = sorted(e.value for e in it.elts if isinstance(e, ast.Constant))
             if n.targets[0].id == 'bn_funcs':
                 bn = keys
             if n.targets[0].id == 'np_funcs':
